@@ -168,12 +168,41 @@ fn cmd_merge_all(a: &[String]) {
     println!("lists {}", count);
 }
 
+/// every list sorted by start (extents may touch, overlap or nest) over 0..U with at most `maxlen` extents
+fn cmd_merge_any(a: &[String]) {
+    let u: u64 = a[0].parse().expect("U");
+    let maxlen: usize = a[1].parse().expect("maxlen");
+    fn rec(u: u64, from: u64, maxlen: usize, cur: &mut Vec<(u64, u64)>, count: &mut u64) {
+        let input: Vec<Extent> = cur.iter().map(|&(s, e)| Extent { start: s, end: e, shared: false }).collect();
+        let shown = fmt_ext(&input);
+        match libfs::merge_extents(input) {
+            Ok(m) => println!("{} => {}", shown, fmt_ext(&m)),
+            Err(e) => println!("{} => error {}", shown, e),
+        }
+        *count += 1;
+        if cur.len() == maxlen {
+            return;
+        }
+        for s in from..u {
+            for e in (s + 1)..=u {
+                cur.push((s, e));
+                rec(u, s, maxlen, cur, count);
+                cur.pop();
+            }
+        }
+    }
+    let mut count = 0;
+    rec(u, 0, maxlen, &mut vec![], &mut count);
+    println!("lists {}", count);
+}
+
 fn main() {
     let a: Vec<String> = std::env::args().collect();
     match a.get(1).map(|s| s.as_str()) {
         Some("copy") => cmd_copy(&a[2..]),
         Some("extents") => cmd_extents(&a[2..]),
         Some("merge-all") => cmd_merge_all(&a[2..]),
+        Some("merge-any") => cmd_merge_any(&a[2..]),
         _ => {
             eprintln!("usage: apiprobe copy|extents|merge-all ...");
             std::process::exit(2);
